@@ -138,9 +138,9 @@ Proof.
 Qed.
 
 Lemma cs4_const sc c : wf4 (ZConst c) sc -> compile_static4 sc (ZConst c).
-Proof. intros [Hs Hd]. apply (cs4_datum sc (ZConst c) c); [intros; apply compile_const_eq; exact Hs|exact Hd]. Qed.
+Proof. intros [Hs Hd]. apply (cs4_datum sc (ZConst c) c); [intros; apply compile_const_eq; [exact Hs|exact Hd]|exact Hd]. Qed.
 Lemma cs4_quote sc d : wf4 (ZQuote d) sc -> compile_static4 sc (ZQuote d).
-Proof. intros Hd. apply (cs4_datum sc (ZQuote d) d); [intros; apply compile_quote_form|exact Hd]. Qed.
+Proof. intros Hd. apply (cs4_datum sc (ZQuote d) d); [intros; apply compile_quote_form; exact Hd|exact Hd]. Qed.
 
 (* ============================================================ variables *)
 Lemma cs4_var sc x : wf4 (ZVar x) sc -> compile_static4 sc (ZVar x).
